@@ -187,7 +187,19 @@ def f_unbound(a):
     return r
 
 
+def f_compif(a):
+    xs = [x * 2 for x in (1, 2, 3, 4) if x > a if x != 3]
+    ys = tuple(x + a for x in (5, 6) if x - a != 5)
+    r = 0
+    for x in xs:
+        r += x
+    for y in ys:
+        r += 100 * y
+    return r
+
+
 CASES = {
+    'f_compif': [(0,), (1,), (2,), (4,)],
     'f_unbound': [(0,), (1,), (2,), (-1,)],
     'f_branch': [(0, 1), (1, 1), (2, 1), (-1, -2)],
     'f_chain': [(1, 2, 3), (3, 2, 1), (1, 1, 0), (0, 0, 0)],
